@@ -174,6 +174,12 @@ OuterLoop:
 			s.logger.Warn("failed to retrieve transactions from DA layer via helper", "error", res.Message)
 			break OuterLoop
 		}
+		if res.Code == coreda.StatusHeightFromFuture {
+			// the DA layer has not produced this height yet: it is not empty, it has to be
+			// scanned again later, so the scan must not move past it
+			s.logger.Debug("DA height not available yet, stopping the scan", "height", nextDAHeight)
+			break OuterLoop
+		}
 		if len(res.Data) == 0 { // TODO: some heights may not have  blobs, find a better way to handle this
 			// stop fetching more transactions and return the current batch
 			s.logger.Debug("no transactions to retrieve from DA layer via helper for", "height", nextDAHeight)
